@@ -420,3 +420,19 @@ Example ex_client_result :
   client_result [OEOS; OEOS] OEOS = true /\ client_result [OEOS; OErrNext] OEOS = false /\
   client_result [OEOS; OErrNext] OErrNext = true /\ client_result [OEOS; OErrNext] OErrTooLate = false.
 Proof. repeat split; reflexivity. Qed.
+
+(* segments of an ENDLIST playlist that share one URI (sub-ranges of one resource): the last-segment
+   test is on the POSITION (Go: pointer identity of the entry), so all four are requested before EOS
+   (seeded change C11-m5 compared URIs and ended after the first) *)
+Definition rseg (n : Z) : segment :=
+  {| sg_uri := "all.ts"; sg_start := Some (n * 564); sg_length := Some 564; sg_payload := n |}.
+Definition rpl : playlist :=
+  {| MediaSequence := 0; Segments := map rseg [0; 1; 2; 3]; Endlist := true; PlaylistType := PTVod;
+     ServerControl := None; PreloadHint := None; Map := None |}.
+Example ex_shared_uri_vod :
+  xrun [rpl; rpl; rpl; rpl] =
+  ([EvPlaylist 0 false; EvSegment 0 0 0 (rseg 0); EvPlaylist 1 false; EvSegment 1 1 1 (rseg 1);
+    EvPlaylist 2 false; EvSegment 2 2 2 (rseg 2); EvPlaylist 3 false; EvSegment 3 3 3 (rseg 3)], OEOS)
+  /\ map (fun n => segment_range (sg_start (rseg n)) (sg_length (rseg n))) [0; 1; 2; 3] =
+     [Some "bytes=0-563"; Some "bytes=564-1127"; Some "bytes=1128-1691"; Some "bytes=1692-2255"]%string.
+Proof. split; vm_compute; reflexivity. Qed.
